@@ -84,7 +84,8 @@ type prefillA struct {
 	name   string
 	script []string
 	keys   []string // alphabet
-	ds, dv int      // quick-tier depth of the struct / versions family (0: default 4 / 5, -1: family not run in the quick tier)
+	ds, dv int      // quick-tier depth of the struct / versions family (0: default 4 / 5, -1: family not run in the quick tier); the
+	// versions family runs to depth 5 from the one-leaf prefills and to depth 4 (+ continuation) from the bigger ones
 }
 
 // words splits a compact script.
@@ -109,13 +110,13 @@ var prefillsA = []prefillA{
 	{"empty", nil, []string{"b", "d", "f", "h", "j", "c"}, 0, 0},
 	{"full-leaf", []string{"+b", "+d", "+f", "+h", "S"}, []string{"a", "c", "d", "e", "h", "i"}, 0, 0},
 	{"just-split-90-10", []string{"+b", "+d", "+f", "+h", "+j", "S"}, []string{"a", "c", "f", "g", "h", "k"}, 0, 0},
-	{"two-level-min-occupancy", []string{"+b", "+d", "+f", "+h", "+j", "+c", "+e", "-c", "S"}, []string{"a", "b", "d", "e", "g", "j"}, 0, 0},
-	{"append-chain", []string{"+a", "+b", "+c", "+d", "+e", "+f", "+g", "+h", "+i", "+j", "+k", "+l", "+m", "+n", "S"}, []string{"c", "d", "g", "m", "n", "o"}, 0, 0},
+	{"two-level-min-occupancy", []string{"+b", "+d", "+f", "+h", "+j", "+c", "+e", "-c", "S"}, []string{"a", "b", "d", "e", "g", "j"}, 0, 4},
+	{"append-chain", []string{"+a", "+b", "+c", "+d", "+e", "+f", "+g", "+h", "+i", "+j", "+k", "+l", "+m", "+n", "S"}, []string{"c", "d", "g", "m", "n", "o"}, 0, 4},
 	{"three-level-min-occupancy", []string{"+a", "+b", "+c", "+d", "+e", "+f", "+g", "+h", "+i", "+j", "+k", "+l", "+m", "+n", "+o", "+p", "+q", "+r", "+s", "+t",
-		"-c", "-f", "-i", "-l", "-o", "-r", "S"}, []string{"a", "b", "e", "k", "t", "u"}, 0, 0},
+		"-c", "-f", "-i", "-l", "-o", "-r", "S"}, []string{"a", "b", "e", "k", "t", "u"}, 0, 4},
 	{"inner-node-full", []string{"+a", "+b", "+c", "+d", "+e", "+f", "+g", "+h", "+i", "+j", "+k", "+l", "+m", "+n", "+o", "+p", "+q", "+r", "+s", "+t", "+u", "+v", "+j0", "S"},
-		[]string{"a", "k0", "w"}, 0, 0},
-	{"two-versions", []string{"+b", "+d", "+f", "+h", "+j", "S", "+c", "-h", "S"}, []string{"b", "c", "e", "j"}, 0, 0},
+		[]string{"a", "k0", "w"}, 0, 4},
+	{"two-versions", []string{"+b", "+d", "+f", "+h", "+j", "S", "+c", "-h", "S"}, []string{"b", "c", "e", "j"}, 0, 4},
 	{name: "three-versions-deep", script: []string{"+a", "+b", "+c", "+d", "+e", "+f", "+g", "+h", "+i", "+j", "S", "-b", "-e", "+k", "S", "+e0", "-j", "S"}, keys: []string{"a", "d", "e0", "k"}, dv: 4},
 	// Rebalancing at INNER level, one or two removals away (fan-outs in the comments; B=4: inner nodes hold 2..4 children):
 	// ((3|2|2)|(2|2)): a removal on the right merges two leaves, the right inner node underflows and borrows the left one's last child
@@ -193,8 +194,8 @@ func scenariosB(thorough, quick23 bool) ([]*Scenario, error) {
 			if !thorough && ((n == 512 || n == 1056) && order == "mix" || n == 1024 && order != "mix") {
 				continue // quick: two insertion orders for 512/1056, one for 1024
 			}
-			if quick23 && n == 1024 {
-				continue // C23 quick runs the three inner-rebalancing start states (ScenariosBInner) instead
+			if quick23 && (n == 1024 || n == 1056 && order == "desc") {
+				continue // C23 quick runs the three descending-order inner-rebalancing start states (ScenariosBInner) instead
 			}
 			var ks []string
 			for i := 0; i <= 2*n+2; i++ {
